@@ -69,6 +69,9 @@ RULE["C17"] += "; every second case takes the forward reference from ANOTHER fre
 RULE["C19"] += "; after each encoder check the same object is asked again 0-3 times after its log changed IN PLACE (entries overwritten, appended, inserted, deleted, reversed, cleared) or with another margin; the state queries are asked again 0-2 times after in-place log changes, a new member and other times"
 RULE["C11"] += "; every 8th case is a partial-operators model (facility tasks whose workplace has several skilled facilities of which each worker can operate only some, next to plain tasks); the inversion clause also covers higher-priority facility tasks"
 RULE["C19"] += "; 15 % of the encoder logs hold equal-but-not-identical members (plain ints, sibling enum)"
+RULE["C10"] += "; every 8th case runs the in-step monitor over a BACKWARD run (both flags, due-time padding tasks), judged by the flag the caller passed"
+RULE["C12"] += "; the values are also checked at every observer phase 'updated' (whether or not update_PERT_data was called in that update); every 12th case pauses an FS network with an absence list, removes / inserts absence steps in the paused logs (the clock moves) and resumes"
+RULE["C20"] += "; half of the tasks are constructed with file_path, and every 4th case sends the configured parent project through write_simple_json / read_simple_json (result file still present) before it runs"
 for _p in RULE:
     RULE[_p] += " [generator-wide: 4 % of the random models with workplaces share an ID string across classes (team/workplace, worker/facility); individual and project absence lists unsorted in 25 % and with a repeated entry in 5 % of the draws; 6 % of the random models repeat a task name]"
 # minimal number of non-trivial cases / monitor evaluations for a conclusive run: (counter, quick, thorough)
@@ -79,16 +82,16 @@ FLOORS = {
     "C04": [("C04.new_worker_allocations", 1000, 30000), ("C04.alloc_with_ineligible_free_candidate", 100, 3000)],
     "C05": [("C05.feasible_runs", 600, 20000), ("C05.unservable_runs", 100, 3000), ("C05.status_checks", 1000, 30000), ("C05.later_calls.reload", 80, 2500)],
     "C11": [("C11.sort_calls", 20000, 500000), ("C11.sort_calls_with_distinct_keys", 5000, 100000), ("C11.contention_situations", 50, 1500), ("C11.contention_pairs", 50, 1500), ("C11.resort_after_change_batches", 2000, 50000)],
-    "C12": [("C12.updates", 10000, 300000), ("C12.updates_after_cpl_change", 500, 15000), ("C12.structure_edits.newtask", 100, 3000)],
+    "C12": [("C12.updates", 10000, 300000), ("C12.updates_after_cpl_change", 500, 15000), ("C12.structure_edits.newtask", 100, 3000), ("C12.updated_phase_checks", 5000, 150000)],
     "C08": [("C08.length_checks", 100000, 3000000), ("C08.entry_checks", 50000, 1500000), ("C08.ops", 1500, 50000)],
     "C09": [("C09.comparisons", 2000, 100000), ("C09.distinct_set_orders", 800, 40000), ("C09.fresh_process_runs", 60, 1500), ("C09.edit_and_resimulate_runs", 100, 3000)],
-    "C10": [("C10.absence_task_checks", 5000, 150000), ("C10.equivalence_comparisons", 300, 10000), ("C10.individual_absence_checks", 50, 1500), ("C10.equivalence_paused_and_resumed", 40, 1000)],
+    "C10": [("C10.absence_task_checks", 5000, 150000), ("C10.equivalence_comparisons", 300, 10000), ("C10.individual_absence_checks", 50, 1500), ("C10.equivalence_paused_and_resumed", 40, 1000), ("C10.backward_runs", 50, 1500)],
     "C18": [("C18.edits", 1500, 50000), ("C18.log_delta_checks", 50000, 1500000), ("C18.roundtrip_comparisons", 150, 5000)],
     "C15": [("C15.memory_resumes", 1000, 60000), ("C15.json_resumes", 200, 10000), ("C15.pauses_inside_run_with_working_task", 200, 20000)],
     "C16": [("C16.roundtrip_comparisons", 300, 8000), ("C16.reference_checks", 10000, 300000), ("C16.resimulations", 50, 1500), ("C16.param_observed_relevant", 15, 400), ("C16.second_reads_of_same_file", 200, 6000), ("C16.second_writes", 200, 6000)],
     "C17": [("C17.faults_raised_and_propagated", 1000, 100000), ("C17.structure_checks", 1000, 100000), ("C17.forward_comparisons", 1000, 100000), ("C17.fs_order_checks", 150, 3000), ("C17.backward_is_first_run", 150, 3000)],
     "C19": [("C19.encoder_checks", 30000, 1000000), ("C19.query_checks", 3000, 80000), ("C19.row_checks", 1000, 30000), ("C19.date_checks", 1000, 30000), ("C19.exhaustive_chunks", 28, 36), ("C19.encoder_checks_after_in_place_change", 3000, 80000), ("C19.query_rounds_after_in_place_change", 300, 8000)],
-    "C20": [("C20.parent_runs", 200, 5000), ("C20.configurations", 300, 8000), ("C20.refusal_checks", 60, 1500), ("C20.result_path_used_again", 100, 3000)],
+    "C20": [("C20.parent_runs", 200, 5000), ("C20.configurations", 300, 8000), ("C20.refusal_checks", 60, 1500), ("C20.result_path_used_again", 100, 3000), ("C20.parents_through_json", 40, 1000)],
     "C06": [("C06.pairs_examined", 1000, 30000), ("C06.none_checks", 1000, 30000)],
     "C07": [("C07.resource_step_checks", 20000, 500000), ("json_resumed_runs", 15, 400), ("resimulated_runs", 40, 1000)],
     "C13": [("C13.moves", 300, 10000), ("C13.site_checks", 300, 10000), ("json_resumed_runs", 30, 800), ("simulate_after_backward_runs", 30, 800)],
